@@ -1,7 +1,40 @@
 module verif/core
 
-go 1.24.2
+go 1.25.1
 
-require github.com/jilio/ebu v0.0.0
+require (
+	github.com/ahimsalabs/durable-streams-go v0.0.0-20251220072926-9430608b4163
+	github.com/jilio/ebu v0.0.0
+	github.com/jilio/ebu/otel v0.0.0
+	github.com/jilio/ebu/stores/durablestream v0.0.0
+	github.com/jilio/ebu/stores/sqlite v0.0.0
+	go.opentelemetry.io/otel/sdk v1.38.0
+	go.opentelemetry.io/otel/sdk/metric v1.38.0
+)
+
+require (
+	github.com/dustin/go-humanize v1.0.1 // indirect
+	github.com/go-logr/logr v1.4.3 // indirect
+	github.com/go-logr/stdr v1.2.2 // indirect
+	github.com/go4org/hashtriemap v0.0.0-20251130024219-545ba229f689 // indirect
+	github.com/google/uuid v1.6.0 // indirect
+	github.com/remyoudompheng/bigfft v0.0.0-20230129092748-24d4a6f8daec // indirect
+	go.opentelemetry.io/auto/sdk v1.1.0 // indirect
+	go.opentelemetry.io/otel v1.38.0 // indirect
+	go.opentelemetry.io/otel/metric v1.38.0 // indirect
+	go.opentelemetry.io/otel/trace v1.38.0 // indirect
+	golang.org/x/exp v0.0.0-20250620022241-b7579e27df2b // indirect
+	golang.org/x/sys v0.36.0 // indirect
+	modernc.org/libc v1.66.10 // indirect
+	modernc.org/mathutil v1.7.1 // indirect
+	modernc.org/memory v1.11.0 // indirect
+	modernc.org/sqlite v1.40.1 // indirect
+)
 
 replace github.com/jilio/ebu => /repo
+
+replace github.com/jilio/ebu/otel => /repo/otel
+
+replace github.com/jilio/ebu/stores/sqlite => /repo/stores/sqlite
+
+replace github.com/jilio/ebu/stores/durablestream => /repo/stores/durablestream
